@@ -19,6 +19,12 @@ def main(argv):
         # files regenerated from /repo by translators must exist before the full build
         import py2coq
         print("translator:", py2coq.generate_murmur(vlib.REPO, os.path.join(vlib.COQ, "Model", "MurmurGen.v")))
+        for mod in ("assign_tie",):      # other translator ties that keep a committed snapshot of the translation of /repo
+            try:
+                m = importlib.import_module(mod)
+                print("translator (%s):" % mod, m.refresh_snapshot())
+            except Exception as e:       # a tie that cannot refresh is reported by its check (two-ties rule), not here
+                print("translator (%s): not refreshed: %r" % (mod, e))
         # Build what the claimed checks need (hard failure), then try the rest of the development (soft: a file of a
         # property that is not claimed yet must not break the set-up of the others; every check re-builds its own
         # dependency cone anyway).  VERIF_SETUP_FULL=1 makes the full build mandatory.
